@@ -25,7 +25,7 @@ import subprocess
 
 from . import pydyn, pyobj, pybytes
 from .pydyn import DYN, TYS, SCHEMA, SCHEMAS, NAME, ARGS, STR, DTr, DProgram
-from .pyobj import NAT, INT, BOOL, BYTES, PROP
+from .pyobj import NAT, INT, BOOL, BYTES, PROP, OBJ
 from .pybytes import OPT
 from .pyexpr import Untranslatable
 from .arith import write_if_changed, _lake_build
@@ -80,13 +80,15 @@ REC = {
 }
 
 HEAD = f"""/- GENERATED by harness/translate/tlengine.py (pydyn.py on pyobj.py) from the current source of
-   {SRC} (TlSchemas.base_types, TlSchema.little_id, TlSchemas.serialize_field / serialize) ; do not edit.
+   {SRC} (TlSchemas.base_types, TlSchema.little_id, TlSchemas.serialize_field / serialize) and
+   {BLOCK_SRC} (BlockIdExt.__init__ / to_bytes / from_bytes / __eq__ / __hash__); do not edit.
    `none` = the Python code raises.  `T` = the schema table; a schema object = a `Ctor` of it; a type string = its classification
    `Py.Tl.TyS`; a dynamically typed value = `Val`; `rec_<m>` = the method `self.<m>` at the depth budget the caller provides. -/
 import TonVerif.PyInt
 import TonVerif.PyBytes
 import TonVerif.PyObj
 import TonVerif.PyTl
+import TonVerif.Model.Tl
 set_option linter.unusedVariables false
 namespace {NS}
 open TonVerif TonVerif.Spec.Tl
@@ -241,6 +243,80 @@ def translate_all():
     return defs
 
 
+# ---- block.py: BlockIdExt (declared: workchain / shard / seqno are ints, root_hash / file_hash are bytes; an object = Model.Tl.BlockIdExt)
+BLOCK_ATTRS = {'workchain': INT, 'shard': INT, 'seqno': INT, 'root_hash': BYTES, 'file_hash': BYTES}
+BLOCK_FIELDS = {'workchain': 'workchain', 'shard': 'shard', 'seqno': 'seqno', 'root_hash': 'rootHash', 'file_hash': 'fileHash'}
+BLOCK_RESULT = [('workchain', 'self.workchain', INT), ('shard', 'self.shard', INT), ('seqno', 'self.seqno', INT),
+                ('rootHash', 'self.root_hash', BYTES), ('fileHash', 'self.file_hash', BYTES)]
+BLOCK_INIT = ['workchain', 'shard', 'seqno', 'root_hash', 'file_hash']
+HASH_TY = 'Int × Int × Int × Bytes × Bytes → Int'
+
+
+def hook_block(tr, e):
+    f = e.func
+    if isinstance(f, ast.Name) and f.id == 'cls' and 'cls' not in tr.env and not e.args:
+        kws = {k.arg: k.value for k in e.keywords}
+        if sorted(kws) != sorted(BLOCK_INIT):
+            raise Untranslatable('cls(...) is not called with exactly the declared keyword arguments')
+        actual = []
+        for n in BLOCK_INIT:
+            v, t = tr.expr(kws[n])
+            if t == NAT and BLOCK_ATTRS[n] == INT:
+                v, t = f'(({v} : Nat) : Int)', INT
+            if t != BLOCK_ATTRS[n]:
+                raise Untranslatable(f'cls(...): {n} has type {t}')
+            actual.append(pybytes.par(v))
+        return tr.hoist(f'init {" ".join(actual)}', 'obj'), OBJ('BlockIdExt')
+    if isinstance(f, ast.Name) and f.id == 'hash' and 'hash' not in tr.env and len(e.args) == 1 and not e.keywords and isinstance(e.args[0], ast.Tuple):
+        parts = [tr.expr(x) for x in e.args[0].elts]
+        if [t for _, t in parts] != [INT, INT, INT, BYTES, BYTES]:
+            raise Untranslatable('hash() of something else than the declared 5-tuple')
+        tr.uses_H = True
+        return '(H (' + ', '.join(v for v, _ in parts) + '))', INT
+    return None
+
+
+def translate_block():
+    import copy
+    tree = _tree(BLOCK_SRC)
+    cls = _class(tree, 'BlockIdExt', BLOCK_SRC)
+    if cls.bases or cls.keywords or cls.decorator_list:
+        raise Untranslatable('BlockIdExt has base classes / decorators')
+    for n in cls.body:
+        if isinstance(n, ast.FunctionDef) and n.name in ('__getattr__', '__getattribute__', '__setattr__', '__new__', '__init_subclass__', '__ne__'):
+            raise Untranslatable(f'BlockIdExt defines {n.name}')
+        if isinstance(n, (ast.Assign, ast.AnnAssign)):
+            raise Untranslatable('BlockIdExt has class-level attributes')
+    prog = DProgram({'BlockIdExt': dict(kind='object', node=cls, lean='Model.Tl.BlockIdExt', attrs=BLOCK_ATTRS, fields=BLOCK_FIELDS, derived={}, base=None)},
+                    src=BLOCK_SRC)
+    iface = dict(context=[('H', HASH_TY)], calls=[hook_block])
+    defs = []
+    init = _method(cls, '__init__')
+    if [a.arg for a in init.args.args[1:]] != BLOCK_INIT or init.args.defaults:
+        raise Untranslatable('BlockIdExt.__init__ parameters')
+    tr = DTr(prog, 'BlockIdExt', 'BlockIdExt', init, [BLOCK_ATTRS[n] for n in BLOCK_INIT], 'init', iface, ctor=BLOCK_RESULT, ctor_struct='Model.Tl.BlockIdExt')
+    defs.append(('block_init', tr.translate()['text']))
+    for name, lean, types, ret in (('to_bytes', 'to_bytes', [], BYTES), ('from_bytes', 'from_bytes', [BYTES], OBJ('BlockIdExt')),
+                                   ('__eq__', 'eq', [OBJ('BlockIdExt')], BOOL), ('__hash__', 'hash', [], INT)):
+        fn = _method(cls, name)
+        if name == 'from_bytes':
+            if [ast.unparse(d) for d in fn.decorator_list] != ['classmethod'] or fn.args.args[0].arg != 'cls':
+                raise Untranslatable('from_bytes is not a classmethod(cls, data)')
+            fn = copy.deepcopy(fn)
+            fn.decorator_list = []
+            fn.args.args[0].arg = 'self'
+            if any(isinstance(n, ast.Name) and n.id == 'self' for n in ast.walk(ast.Module(body=fn.body, type_ignores=[]))):
+                raise Untranslatable('from_bytes uses the name self')
+        elif fn.decorator_list:
+            raise Untranslatable(f'{name} is decorated')
+        tr = DTr(prog, 'BlockIdExt', 'BlockIdExt', fn, types, lean, iface)
+        info = tr.translate()
+        if info['ret'] != ret:
+            raise Untranslatable(f'BlockIdExt.{name} returns a {info["ret"]}')
+        defs.append((f'block_{lean}', info['text']))
+    return defs
+
+
 def committed_text():
     try:
         r = subprocess.run(['git', '-C', os.path.dirname(LEAN), 'show', f'HEAD:lean/{OUT}'], capture_output=True, text=True, timeout=20)
@@ -255,6 +331,7 @@ def generate(old=None):
     """-> (text, info, lost): the methods depend on each other's signatures: regenerated as a whole or not at all"""
     try:
         defs = translate_all()
+        bdefs = translate_block()
     except (Untranslatable, SyntaxError, OSError, RecursionError) as e:
         keep = committed_text() or old
         if keep is None:
@@ -263,8 +340,12 @@ def generate(old=None):
     out = [HEAD]
     for name, text in defs:
         out += [f'-- BEGIN {name}', text.rstrip('\n'), f'-- END {name}', '']
-    out += ['-- BEGIN knot', KNOT.rstrip('\n'), '-- END knot', '', f'end {NS}']
-    return '\n'.join(out) + '\n', {n: 'regenerated' for n, _ in defs}, {}
+    out += ['-- BEGIN knot', KNOT.rstrip('\n'), '-- END knot', '']
+    out += [f'/-! ### {BLOCK_SRC}: BlockIdExt (an object = `Model.Tl.BlockIdExt`; `H` = Python\'s hash of the 5-tuple) -/', 'namespace Block', 'open TonVerif.Model.Tl', '']
+    for name, text in bdefs:
+        out += [f'-- BEGIN {name}', text.rstrip('\n'), f'-- END {name}', '']
+    out += ['end Block', '', f'end {NS}']
+    return '\n'.join(out) + '\n', {n: 'regenerated' for n, _ in defs + bdefs}, {}
 
 
 def regenerate():
@@ -370,6 +451,17 @@ def run1 (w : String) : String :=
         | some a => same (serializeFieldAt table (serializeF table gfuel) ⟨none, a.vec, a.ty⟩ val) (serArg table (serObj table gfuel) a val)
         | none => "bad")
       | _, _, _ => "bad")
+  | ["btb", w, sh, q, r, f] => (match w.toInt?, sh.toInt?, q.toInt?, hexArg r, hexArg f with
+      | some w, some sh, some q, some r, some f => showB (Block.to_bytes f r q sh w)
+      | _, _, _, _, _ => "bad")
+  | ["bfb", d] => (match hexArg d with
+      | some d => (match Block.from_bytes d with | some b => "ok" ++ showBlk b | none => "err")
+      | none => "bad")
+  | ["beq", w, sh, q, r, f, w2, sh2, q2, r2, f2] =>
+      (match w.toInt?, sh.toInt?, q.toInt?, hexArg r, hexArg f, w2.toInt?, sh2.toInt?, q2.toInt?, hexArg r2, hexArg f2 with
+      | some w, some sh, some q, some r, some f, some w2, some sh2, some q2, some r2, some f2 =>
+        (match Block.eq ⟨w2, sh2, q2, r2, f2⟩ f r q sh w with | some b => if b then "okT" else "okF" | none => "err")
+      | _, _, _, _, _, _, _, _, _, _ => "bad")
   | _ => "bad"
 """
 
@@ -436,6 +528,30 @@ def validation_cases(W=None):
                 if tok is None or (a['vec'] and isinstance(x, (bytes, str, dict))):
                     continue          # a vector field's value is a list (other iterables are outside the modelled domain: PyTl.lean listLen?)
                 out.append((f'fld:{c["idx"]}:{j}:{tok}', lambda st=st, x=x: W.lib.serialize_field(st, copy.deepcopy(x))))
+    from pytoniq_core.tl.block import BlockIdExt
+    hx = lambda b: b.hex() or '-'
+    ids = []
+    for k in range(40):
+        wc = rng.choice([0, -1, 1, 2 ** 31 - 1, -2 ** 31, 2 ** 31, -2 ** 31 - 1, rng.randrange(-2 ** 31, 2 ** 31)])
+        sh = rng.choice([0, -2 ** 63, 2 ** 63 - 1, 2 ** 63, -2 ** 63 - 1, rng.randrange(-2 ** 63, 2 ** 63)])
+        sq = rng.choice([0, 1, 2 ** 31 - 1, 2 ** 31, -1, rng.randrange(-2 ** 31, 2 ** 31)])
+        rh, fh = rng.randbytes(rng.choice([32, 32, 32, 0, 5])), rng.randbytes(rng.choice([32, 32, 31, 33]))
+        ids.append((wc, sh, sq, rh, fh))
+        out.append((f'btb:{wc}:{sh}:{sq}:{hx(rh)}:{hx(fh)}', lambda a=(wc, sh, sq, rh, fh): BlockIdExt(*a).to_bytes()))
+        d = rng.randbytes(rng.choice([80, 80, 80, 0, 3, 15, 16, 47, 79, 81, 100]))
+
+        def fb(d=d):
+            b = BlockIdExt.from_bytes(d)
+            return f'{b.workchain} {b.shard} {b.seqno} {hx(b.root_hash)} {hx(b.file_hash)}'.encode()
+        out.append((f'bfb:{hx(d)}', fb, 'text'))
+    for k in range(40):
+        a = ids[k]
+        b = list(a) if k % 2 else list(ids[(k + 1) % 40])
+        if k % 4 == 1:
+            j = rng.randrange(5)
+            b[j] = (b[j] + 1) if j < 3 else (b[j] + b'\x01')
+        out.append((f'beq:{a[0]}:{a[1]}:{a[2]}:{hx(a[3])}:{hx(a[4])}:{b[0]}:{b[1]}:{b[2]}:{hx(b[3])}:{hx(b[4])}',
+                    lambda a=a, b=tuple(b): (b'T' if (BlockIdExt(*a) == BlockIdExt(*b)) else b'F'), 'text'))
     return W, out
 
 
@@ -445,12 +561,13 @@ def validate():
     -> (None | reason, number of calls)"""
     try:
         W, cases = validation_cases()
-        got = lean_eval([w for w, _ in cases])
+        got = lean_eval([c[0] for c in cases])
     except Exception as e:
         return f'validation: the regenerated definition could not be evaluated: {type(e).__name__}: {e}', 0
-    for (w, thunk), g in zip(cases, got):
+    for case, g in zip(cases, got):
+        w, thunk = case[0], case[1]
         try:
-            pv = 'ok' + thunk().hex()
+            pv = 'ok' + (thunk().decode() if len(case) > 2 else thunk().hex())
         except RecursionError:
             continue
         except Exception:
